@@ -1,11 +1,28 @@
 (* C16 - User mistakes surface as RuntimeError or Sorry, never as internal errors.
-   Proved here (all inputs, PARTIAL): the tokenizer never ends in an internal error and always
-   returns (fuel = length + 1 is never exhausted).  Parser / converters / argument interpreter: the
-   model classifies every outcome as Ok | UErr | Crash and the correspondence stream compares that
-   class with the exception class of the implementation on token soup and mutated documents. *)
+   Theorems (all inputs, every oracle table):
+   - the tokenizer model never ends in an internal error and always returns;
+   - freephil.parse (model): the only way to an internal error is through one of the three oracle
+     functions (.type construction, eval-based integer attribute, .call proxy) - if none of the recorded
+     oracle answers is an internal error, parse ends in Ok or a user error, and the fuel the entry point
+     passes is never exhausted (every call returns).  This isolates exactly the recorded findings F18
+     (.call) and F6-attr (non-finite integer attribute), which enter through those oracles.
+   PARTIAL: converters / fetch / extract / the argument interpreter's own logic are covered by the
+   correspondence streams (outcome classes compared on token soup, mutated documents and value texts). *)
 From Coq Require Import List Ascii String.
-From Phil Require Import Base Tokenizer LexProofs.
+From Phil Require Import Base Tokenizer Tree Parser LexProofs ParserTotal.
 
-Theorem C16_tokenize_no_crash_partial : forall σ s c, tokenize σ s <> Crash c.
+Theorem C16_tokenize_no_crash : forall σ s c, tokenize σ s <> Crash c.
 Proof. exact tokenize_no_crash. Qed.
-Print Assumptions C16_tokenize_no_crash_partial.
+Print Assumptions C16_tokenize_no_crash.
+
+Theorem C16_parse_no_crash : forall o s, oracle_ok o -> ok_res (parse o s).
+Proof. exact parse_total. Qed.
+Print Assumptions C16_parse_no_crash.
+
+Theorem C16_parse_no_crash_without_oracle : forall s, ok_res (parse nil s).
+Proof. exact parse_total_no_oracle. Qed.
+Print Assumptions C16_parse_no_crash_without_oracle.
+
+Theorem C16_scan_for_start_never_goes_back : forall fuel s line, length (fst (fst (sfs fuel s line))) <= length s.
+Proof. exact sfs_le. Qed.
+Print Assumptions C16_scan_for_start_never_goes_back.
